@@ -58,6 +58,46 @@ declarations:
 library: wide
 cxx_header: wide.hpp
 options: {wrap_python: true, wrap_lua: true}
+copyright:
+- Copyright (c) the wide project
+- all rights reserved
+-
+- "SPDX-License-Identifier: (BSD-3-Clause)"
+setup:
+  author: someone
+  author_email: someone@example.org
+  description: every optional key of the setup section
+  long_description: a longer text
+  license: BSD-3-Clause
+  url: http://example.org/wide
+  test_suite: test
+patterns:
+  C_invalid_name: |
+      if (! isNameValid({cxx_var})) {{
+          return SIDRE_InvalidID;
+      }}
+  free_text: "delete [] {cxx_var};"
+splicer_code:
+  c:
+    CXX_definitions:
+    - // text from the splicer_code section
+    class:
+      Alpha:
+        CXX_definitions:
+        - // for class Alpha
+      Beta:
+        CXX_definitions:
+        - // for class Beta
+  f:
+    module_top:
+    - "integer, parameter :: MAXNAME = 20"
+    class:
+      Gamma:
+        component_part:
+        - "integer :: extra = 0"
+  py:
+    C_definition:
+    - // python definitions
 declarations:
 - decl: class Alpha
   declarations:
